@@ -464,6 +464,8 @@ impl<T: Sync + Send + 'static> Nucleo<T> {
             let notify = self.notify.clone();
             self.pool.spawn(move || {
                 unsafe { inner.run(status, cleared) };
+                #[cfg(nucleo_verif)]
+                crate::verif::probe("run.end");
                 let was_canceled = inner.was_canceled;
                 // release the worker before notifying so that a tick triggered by the
                 // notification is able to lock it and pick up the results
